@@ -149,6 +149,9 @@ func (s *sess) op(o string) string {
 	switch o[0] {
 	case 'N':
 		n := num(0)
+		if n > 100000 {
+			return "too-large" // not an input of the generator (it would only exhaust memory)
+		}
 		return catch(func() string {
 			r := ring.New[int](n)
 			s.register(r, n)
@@ -270,7 +273,7 @@ func seqInts(lo, n int) string {
 }
 
 func main() {
-	tr.Main("C10_ring: Join of every ordered pair of elements of one ring (every distance, equal, adjacent) and of two different rings, ring sizes 1..8 (quick) / 1..10 (thorough), with a snapshot before and after; Pop of every element; New for n = -2..9; nil receivers and arguments; Each stopped at every call; At/Peek at every offset -(len+1)..(len+1) and far beyond, up to math.MaxInt64 and down to math.MinInt64; random histories of Join/Pop/New/Of over several rings with a snapshot after every mutation.  A snapshot walks Next and Prev c+1 steps from every element ever handed out and records Len, Each, At and Peek at all offsets.  A case is non-trivial when it contains a Join or a Pop; distinct = distinct histories.",
+	tr.Main("C10_ring: Join of every ordered pair of elements of one ring (every distance, equal, adjacent) and of two different rings, ring sizes 1..8 (quick) / 1..10 (thorough), with a snapshot before and after; Pop of every element (rings of one and of two elements tagged), put back with the popped element as argument and as receiver; New for n = -2..9, for n <= 0 down to math.MinInt64 and for one ring of a few hundred elements; Of without values; nil receivers and arguments; Each stopped at every call; At/Peek at every offset -(len+1)..(len+1) and far beyond, up to math.MaxInt64 and down to math.MinInt64; random histories of Join/Pop/New/Of over several rings with a snapshot after every mutation.  A snapshot walks Next and Prev c+1 steps from every element ever handed out and records Len, Each, At and Peek at all offsets.  A case is non-trivial when it contains a Join or a Pop; distinct = distinct histories.",
 		exec, func(g *tr.G) {
 			maxN := g.Scale(8, 10)
 			// nil receivers / arguments, empty rings
@@ -279,6 +282,14 @@ func main() {
 			}
 			for n := -2; n <= maxN+1; n++ {
 				g.Emit(fmt.Sprintf("H N%d;S", n), false, "new")
+			}
+			// New with no elements to make, down to the minimum int; Of with no values; the observers on the nil result
+			for _, n := range []int{math.MinInt64, math.MinInt64 + 1, -(1 << 40), -1, 0} {
+				g.Emit(fmt.Sprintf("H N%d;S;N%d;L0;E0,0;Z0;O;N2;S", n, n), false, "new-nonpos")
+			}
+			// a ring large against the sizes above: the counters of New, Len and At run a few hundred steps
+			for _, n := range []int{g.Scale(300, 1500)} {
+				g.Emit(fmt.Sprintf("H N%d;L1;A1,%d;A1,%d;A1,%d;A1,%d;K1,%d;E1,3;X1;V1;P1;L1;L2;J1,2;L1", n, n-1, n, -(n - 1), -n, n/2), true, "new-large")
 			}
 			for n := 1; n <= maxN; n++ {
 				of := "O" + seqInts(11, n)
@@ -302,7 +313,16 @@ func main() {
 							g.Emit(fmt.Sprintf("H %s;J%d,%d;J%d,%d;S;J%d,%d;S", of, i, j, j, i, i, i%n+1), true, "same-ring-then-rejoin")
 						}
 					}
-					g.Emit(fmt.Sprintf("H %s;P%d;S;P%d;S;J%d,%d;S", of, i, i, i%n+1, i), true, "pop")
+					ptag := "pop"
+					switch n {
+					case 1:
+						ptag = "pop-singleton"
+					case 2:
+						ptag = "pop-ring-of-two" // the two neighbours of the popped element are the same element
+					}
+					g.Emit(fmt.Sprintf("H %s;P%d;S;P%d;S;J%d,%d;S", of, i, i, i%n+1, i), true, ptag)
+					// the popped element as the receiver of the Join that puts it back, then Pop of its new successor
+					g.Emit(fmt.Sprintf("H %s;P%d;J%d,%d;S;P%d;S", of, i, i, i%n+1, i%n+1), true, ptag+"-rejoin")
 					for lim := 0; lim <= n+1; lim++ {
 						g.Emit(fmt.Sprintf("H %s;E%d,%d", of, i, lim), false, "each-stop")
 					}
